@@ -383,9 +383,10 @@ def solve(model, sfield, sslsolver=True, semicoarsening=True,
         var.exit_message = "CONVERGED"
         info = "   > RETURN ZERO E-FIELD (provided sfield is zero)\n"
 
-        # Zero-source means zero e-field.
-        efield = fields.Field(model.grid, dtype=sfield.field.dtype,
-                              frequency=sfield._frequency)
+        # Zero-source means zero e-field (in-place, also for a provided
+        # efield), which has zero error.
+        efield.field = 0.0
+        var.l2 = 0.0
 
     # Print header for iteration log.
     header = f"   [hh:mm:ss]  {'rel. error':<22}"
